@@ -108,6 +108,9 @@ type Sched struct {
 	KeyFn func(h hash.Hash)
 	// Stores whose content is part of the state key.
 	Stores []*Store
+	// AnonInOrder: see Run (reduces the interleavings of spawned goroutines to
+	// their canonical order; used when several named threads already compete).
+	AnonInOrder bool
 	// MaxSteps bounds the number of scheduler steps (horizon).
 	MaxSteps int
 	Steps    int
@@ -526,6 +529,23 @@ func (s *Sched) Run() {
 			}
 			return enabled[i].Name < enabled[j].Name
 		})
+		if s.AnonInOrder {
+			// Only the first anonymous thread (canonical order) may run: parallel
+			// uploads are applied in one fixed order (their prefixes, not all
+			// subsets, are the intermediate states).
+			kept := enabled[:0]
+			seenAnon := false
+			for _, th := range enabled {
+				if th.anon {
+					if seenAnon {
+						continue
+					}
+					seenAnon = true
+				}
+				kept = append(kept, th)
+			}
+			enabled = kept
+		}
 		runningEnabled := false
 		for i, th := range enabled {
 			if th == s.running && !th.yielded {
